@@ -7574,46 +7574,41 @@ func smallWave25(c *core.Ctx, b *ob) {
 			b.addP(props, core.Discharged, key, c.InstrPos(nullTest), "hasNullPrefix dominates every use of the held value")
 		}
 	}
-	// (q) a codec function is always handed the address of a value: testing that address against nil
-	// tests nothing — the nil that matters is the pointer stored there (a nil pointer map key is
-	// written as "", not null)
+	// (q) a nil pointer map key is written as the empty string: the key encoder's wrapper tests the
+	// pointer stored at p — p itself is the address of the key and never nil, so a test of p is
+	// dead code and the nil key reaches the encoder, which writes null where a key must be a string
 	{
 		props := []string{"C01", "C06"}
-		key := "codec-data-pointer:never-compared-with-nil"
-		n, bad := 0, ""
-		for _, fn := range c.RepoFunctions() {
-			if fn.Blocks == nil || !strings.HasPrefix(shortName(fn), "json.") {
-				continue
-			}
+		key := "nil-map-key:tests-the-stored-pointer"
+		fn := c.Lookup("json.constructNilKeyEncodeFunc$1")
+		if fn == nil {
+			b.addP(props, core.Undecided, key, "-", "json.constructNilKeyEncodeFunc$1 not found")
+		} else {
 			var dp *ssa.Parameter
 			for _, p := range fn.Params {
-				if p.Name() == "p" && p.Type().String() == "unsafe.Pointer" {
+				if p.Type().String() == "unsafe.Pointer" {
 					dp = p
 				}
 			}
-			if dp == nil {
-				continue
-			}
-			n++
+			ok := false
 			for _, blk := range fn.Blocks {
 				for _, in := range blk.Instrs {
-					bo, ok := in.(*ssa.BinOp)
-					if !ok || (bo.Op != token.EQL && bo.Op != token.NEQ) {
+					bo, isBO := in.(*ssa.BinOp)
+					if !isBO || (bo.Op != token.EQL && bo.Op != token.NEQ) {
 						continue
 					}
-					if (bo.X == ssa.Value(dp) && isNilConst(bo.Y)) || (bo.Y == ssa.Value(dp) && isNilConst(bo.X)) {
-						bad = c.InstrPos(bo) + " (" + shortName(fn) + ")"
+					for _, side := range []ssa.Value{bo.X, bo.Y} {
+						if ld, isLd := side.(*ssa.UnOp); isLd && ld.Op == token.MUL && dp != nil && stripConv(ld.X) == ssa.Value(dp) {
+							ok = true
+						}
 					}
 				}
 			}
-		}
-		switch {
-		case n == 0:
-			b.addP(props, core.Undecided, key, "-", "no json function with a data pointer parameter p")
-		case bad != "":
-			b.addP(props, core.Violation, key, bad, "the data pointer p itself is compared with nil at "+bad+": p is the address of the value and never nil, so the branch is dead — where it replaced a test of the pointer stored at p (a nil pointer map key), the nil case now reaches the encoder, which writes null where a key must be a string: {null:0} is not JSON")
-		default:
-			b.addP(props, core.Discharged, key, "-", fmt.Sprintf("%d json functions with a data pointer parameter, none compares it with nil", n))
+			if ok {
+				b.addP(props, core.Discharged, key, c.FuncPos(fn), "the wrapper compares the pointer loaded from p with nil")
+			} else {
+				b.addP(props, core.Violation, key, c.FuncPos(fn), "the nil-key wrapper no longer compares the pointer stored at p with nil (p itself is the key's address, never nil): a nil pointer key that implements TextMarshaler reaches the encoder and is written as null — {null:0} is not JSON, encoding/json writes {\"\":0}")
+			}
 		}
 	}
 	// (r) proto looks through every level of indirection to classify a field: baseTypeOf loops
